@@ -617,7 +617,7 @@ func init() {
 		ID:            "C16",
 		Race:          true,
 		WorkersPerCPU: 3,
-		Technique:     "runtime monitoring under the Go race detector: invariant at the scheduler's idle-tick hook (fixpoint = deadlock, decided in logical time), bounded-progress watchdog, work-conservation check at fresh quiescent points, cycle/definition-error rule and topological check of DepthFirstSort, all on real graphs built by public-API call histories",
+		Technique:     "runtime monitoring under the Go race detector: invariants at the scheduler's idle-tick and loop-iteration hooks decided in logical time (fixpoint = deadlock, silent iterations = spinning scheduler, launched-but-not-entered tasks with free capacity = work conservation), goroutine-dump check that every task goroutine is blocked before any no-progress verdict, work-conservation check at fresh quiescent points, cycle/definition-error rule and topological check of DepthFirstSort, all on real graphs built by public-API call histories",
 		Rule: "construction histories over 3 tasks: ALL call sequences of length <= 4 (thorough: <= 5 sampled exhaustively by index) over {AddTask(x), TaskDependsOn(x,y), TaskDependsOn(x,y,z), TaskRetries(x,1), TaskRetries(x,0)} incl. re-adding known tasks before/after they got edges, duplicate edges, self edges, cycles, nil tasks, edges declared before AddTask; every history is run to completion or to a verdict under all outcomes ok and under random outcome plans, orders by DFS (small) or PRNG; " +
 			"random DAGs up to 12 vertices (with retries, failing scripts and cancellation points, DepthFirstSort called while the graph is still being built, a failing output writer) for work conservation and bounded progress; distinct = (history, plan, mode); non-trivial = the history re-adds a task, duplicates an edge, contains a cycle or has at least one edge",
 		Assumptions: common,
